@@ -146,7 +146,8 @@ pub fn campaigns(ctx: &Ctx) -> Stats {
     }
     st.merge(ctx.run_indexed("inadmissible-configurations", bad.len() as u64, None, |i| Some(fwd(&bad[i as usize]))));
     let total = t.pick(20000u64, 400000);
-    let strat = || (1..=6usize, 1..=6usize, 1..=6usize, 2..=4usize, 2..=4usize, any::<usize>(), any::<u64>()).prop_map(|(r, k, c, m, n, sel, vseed)| MmRecipe { r, k, c, m, n, sel, vseed }).boxed();
+    let mxs = t.pick(7usize, 10);
+    let strat = move || (1..=mxs, 1..=mxs, 1..=mxs, 2..=4usize, 2..=4usize, any::<usize>(), any::<u64>()).prop_map(|(r, k, c, m, n, sel, vseed)| MmRecipe { r, k, c, m, n, sel, vseed }).boxed();
     st.merge(ctx.run_prop("random-sizes-and-values", total, strat, random_case));
     st
 }
